@@ -46,10 +46,13 @@ func genTags(muxOnly bool) []flvTag {
 		small = 8
 		big = []int{255, 256, 65524, 65525, 65535, 65536, 65537, 131071, 1 << 20}
 		if muxOnly {
-			// the 24-bit size limit itself (the demuxing harnesses stop at 2^20: reading 16 MiB back
-			// through bytes.Buffer exceeds the engine's allocation bound)
-			big = append(big, 1<<24-1)
+			big = append(big, 1<<24-12, 1<<24-11)
 		}
+	}
+	if muxOnly {
+		// the 24-bit size limit itself (the demuxing harnesses stop at 2^20: reading 16 MiB back
+		// through bytes.Buffer exceeds the engine's allocation bound)
+		big = append(big, 1<<24-1)
 	}
 	k := 1 + vChoice(2)
 	tags := make([]flvTag, k)
